@@ -22,7 +22,7 @@ import (
 	"verifharness/gal"
 )
 
-const header = "From CSS Require Import Lib.Base Lib.Cases Model.Ranges Model.Refs Model.RefsCases."
+const header = "From CSS Require Import Lib.Base Lib.Cases Model.Ranges Model.Refs Model.RefsHeap Model.RefsCases."
 
 const (
 	siteData  = "pkg/bootflow/types/data.go"
@@ -327,19 +327,33 @@ func natList(v []int) string {
 // ---------- main ----------
 
 func main() {
-	c := gal.New("C11", header, 420)
+	c := gal.New("C11", header, 460)
 	g := &gen{c: c}
 
+	// programs (the largest literals) are spread over the shards
+	np := c.Scale(700, 6000) / 7
 	g.readAtExhaustive()
+	g.progCases(np)
 	g.rangeCases(c.Scale(1000, 8000))
-	g.refCases(c.Scale(2100, 15000))
-	g.bytesCases(c.Scale(1000, 8000))
+	g.progCases(np)
+	for k := 0; k < 3; k++ {
+		g.refCases(c.Scale(700, 5000))
+		g.progCases(np)
+	}
+	for k := 0; k < 2; k++ {
+		g.bytesCases(c.Scale(500, 4000))
+		g.progCases(np)
+	}
 	g.fixedCases()
+	g.fixedPrograms()
 	g.probes()
 
 	c.Finish("exhaustive RawBytes.ReadAt / bytes.Reader.ReadAt for |b|<=5, |p|<=6, -2<=off<=|b|+2; random Range.Intersect/Exclude and Ranges.SortAndMerge " +
 		"(small window incl. zero-length/adjacent/duplicate/unsorted, plus uint64-overflowing ranges with distinct offsets); random reference lists " +
 		"(0..6 references over up to 4 artifacts out of: 3 RawBytes, 2 *biosimage.BIOSImage, 1 *main.regFile, 1 zz.Art; mappers nil/PhysMemMapper/" +
 		"shifting+splitting+failing custom mapper) through SortAndMerge, Exclude, RawBytes, Resolve, BySystemArtifact, Ranges; " +
+		"programs: harness-made memory (1..3 lists of 0..6 references inside arrays of Reference structs with cells in front and spare capacity, range slices with " +
+		"own/shared backing arrays, spare capacity, nil) and 4..8 operations (BySystemArtifact, Ranges, Exclude incl. v.Exclude(v...), caller-made copy, SortAndMerge, Resolve, " +
+		"RawBytes, Reference.RawBytes, Ranges.SortAndMerge) with every result kept as a further variable, the whole memory re-read after every operation; " +
 		"a case is non-trivial when it has >=1 non-empty range (ReadAt: |b|>=1); distinct = distinct Gallina literal")
 }
